@@ -193,7 +193,17 @@ func init() {
 				obs["servedWithOld"] = r.UpHits > 0 && gen == 0
 			}
 			disarm()
-			// the proxy keeps handling other requests: a following well-formed login works
+			// the proxy keeps handling other requests - also the next one of the SAME browser, with whatever session it still holds: it is
+			// answered (with anything) and does not wait for ever on something the failed exchange left behind
+			ans := make(chan bool, 1)
+			go func() { w.get(jar, "/private"); ans <- true }()
+			select {
+			case <-ans:
+				obs["answeredAgain"] = true
+			case <-time.After(8 * time.Second):
+				obs["answeredAgain"] = false
+			}
+			// ... and a following well-formed login works
 			j2 := vpNewJar()
 			cb, err := w.login(j2, "bob", "")
 			idp.mu.Lock()
